@@ -8,15 +8,22 @@ use ndarray::Array1;
 /// Trace `T * beta A^res` contributions (+ total) of a residual model at a state.
 /// Outputs: one per contribution (beta A_k, as the trait returns it), then `A_total = T * sum_k`.
 pub fn trace_residual<R: Residual>(model: &R, s: &RState) -> Prog {
+    trace_residual_k::<R, 1>(model, s)
+}
+
+/// the same with `DualNum::NDERIV = K` for the tracing number type: code that performs `D::NDERIV`
+/// implicit Newton sweeps (cross-association) is traced with the number of sweeps it performs when a
+/// derivative of order K is requested
+pub fn trace_residual_k<R: Residual, const K: usize>(model: &R, s: &RState) -> Prog {
     sym::reset();
-    let t = sym::var(0, s.t);
-    let v = sym::var(1, s.v);
-    let n = Array1::from_iter(s.n.iter().enumerate().map(|(i, x)| sym::var(2 + i as u32, *x)));
+    let t: Sym<K> = sym::var(0, s.t);
+    let v: Sym<K> = sym::var(1, s.v);
+    let n = Array1::from_iter(s.n.iter().enumerate().map(|(i, x)| sym::var::<K>(2 + i as u32, *x)));
     let sh = StateHD::new(t, v, n);
     let contribs = model.residual_helmholtz_energy_contributions(&sh);
     let mut outs: Vec<(String, u32)> = Vec::new();
     // the trait's default `residual_helmholtz_energy`: fold from zero
-    let mut acc = <Sym as num_traits::Zero>::zero();
+    let mut acc = <Sym<K> as num_traits::Zero>::zero();
     for (name, a) in &contribs {
         outs.push((name.clone(), a.0));
         acc = acc + *a;
@@ -29,6 +36,8 @@ pub fn trace_residual<R: Residual>(model: &R, s: &RState) -> Prog {
 }
 
 pub struct Traced {
+    /// number of implicit sweeps (`NDERIV`) the tracing number type announced
+    pub k: usize,
     pub prog: Prog,
     /// the un-deduplicated program of the first trace state (for shape comparisons)
     pub raw: Prog,
@@ -41,21 +50,30 @@ pub struct Traced {
 
 /// Trace at two states that differ in every coordinate; report shape stability and leaked constants.
 pub fn trace_two<R: Residual>(model: &R, a: &RState, b: &RState) -> Traced {
-    let pa = trace_residual(model, a);
-    let pb = trace_residual(model, b);
+    trace_two_k::<R, 1>(model, a, b)
+}
+
+pub fn trace_two_k<R: Residual, const K: usize>(model: &R, a: &RState, b: &RState) -> Traced {
+    let pa = trace_residual_k::<R, K>(model, a);
+    let pb = trace_residual_k::<R, K>(model, b);
     let c = compare(&pa, &pb);
     let leak_values = c.leaks.iter().map(|&i| (pa.consts[i], pb.consts[i])).collect();
     let raw = pa.clone();
     let mut prog = pa;
     let remap = prog.dedup_consts_keep(&c.leaks);
-    Traced { prog, raw, remap, same_shape: c.same_shape, leaks: c.leaks, leak_values }
+    Traced { k: K, prog, raw, remap, same_shape: c.same_shape, leaks: c.leaks, leak_values }
 }
 
 impl Traced {
     /// constant table of the program when traced at another state (`None`: the shape differs there);
     /// constants that are not state dependent keep their value, leaked slots get the value of that state
     pub fn consts_at<R: Residual>(&self, model: &R, s: &RState) -> Option<Vec<f64>> {
-        let p = trace_residual(model, s);
+        let p = match self.k {
+            1 => trace_residual_k::<R, 1>(model, s),
+            2 => trace_residual_k::<R, 2>(model, s),
+            3 => trace_residual_k::<R, 3>(model, s),
+            k => panic!("unsupported NDERIV {k}"),
+        };
         let c = compare(&self.raw, &p);
         if !c.same_shape {
             return None;
@@ -78,7 +96,11 @@ pub struct ProgramSet {
 /// Trace at `a`/`b` (leak detection) and assign every validation state to a program of matching shape,
 /// tracing a further program (at `s` and a slightly hotter twin) when no existing shape matches.
 pub fn trace_set<R: Residual>(model: &R, a: &RState, b: &RState, tv_states: &[RState]) -> ProgramSet {
-    let mut progs = vec![trace_two(model, a, b)];
+    trace_set_k::<R, 1>(model, a, b, tv_states)
+}
+
+pub fn trace_set_k<R: Residual, const K: usize>(model: &R, a: &RState, b: &RState, tv_states: &[RState]) -> ProgramSet {
+    let mut progs = vec![trace_two_k::<R, K>(model, a, b)];
     let mut tv = Vec::new();
     for s in tv_states {
         let mut found = None;
@@ -93,7 +115,7 @@ pub fn trace_set<R: Residual>(model: &R, a: &RState, b: &RState, tv_states: &[RS
             None => {
                 let mut s2 = s.clone();
                 s2.t *= 1.0 + 1e-3;
-                let t = trace_two(model, s, &s2);
+                let t = trace_two_k::<R, K>(model, s, &s2);
                 let cs = t.prog.consts.clone();
                 progs.push(t);
                 (progs.len() - 1, cs)
